@@ -1,6 +1,6 @@
 """C06 SEC 1 point decoding is strict and encoding is a bijection on curve points."""
 import os
-from .common import Check, load_prog, load_globals, new_machine, tm, X, MOD, N_ORDER, P_FIELD, sym_bytes, cat_bytes, cat_limbs, sym_limbs
+from .common import Check, load_prog, load_globals, new_machine, tm, X, MOD, N_ORDER, P_FIELD, sym_bytes, cat_bytes, cat_limbs, sym_limbs, point_tree, point_get
 from . import models, ring as R
 
 ROOT = MOD + '.'
@@ -118,19 +118,25 @@ SUMMARY = {
 
 def new_point(m, name, valid=None):
     """a Point object with arbitrary prior content (receiver pre-state)"""
-    tree = [[], [[], sym_limbs(name + '_x')], [[], sym_limbs(name + '_y')], [[], sym_limbs(name + '_z')],
-            tm.boolvar(name + '_valid') if valid is None else valid]
+    tree = point_tree(m, name, [[], sym_limbs(name + '_x')], [[], sym_limbs(name + '_y')], [[], sym_limbs(name + '_z')],
+                      tm.boolvar(name + '_valid') if valid is None else valid, extra='any')
     return m.new_obj(None, tree=tree, label='Point:' + name)
 
 
 def pt_state(o):
-    t = o.tree
-    return (tm.lift(cat_limbs(list(t[1][1])), 256) if any(isinstance(v, tm.T) for v in t[1][1]) else cat_limbs(list(t[1][1])),
-            cat_limbs(list(t[2][1])), cat_limbs(list(t[3][1])), t[4])
+    """(x, y, z, isValid, extra bookkeeping fields...) of a Point object, fields located by name in the current tree's struct type"""
+    from .common import cur_prog, point_extra_state
+    prog = cur_prog()
+    fx, fy, fz = [point_get(prog, o, f)[1] for f in ('x', 'y', 'z')]
+    return (tm.lift(cat_limbs(list(fx)), 256) if any(isinstance(v, tm.T) for v in fx) else cat_limbs(list(fx)),
+            cat_limbs(list(fy)), cat_limbs(list(fz)), point_get(prog, o, 'isValid'), tuple(point_extra_state(prog, o)))
 
 
 def same_state(a, b):
-    return tm.band_all([tm.eq(a[0], b[0], 256), tm.eq(a[1], b[1], 256), tm.eq(a[2], b[2], 256), tm.eq(a[3], b[3], 0)])
+    cs = [tm.eq(a[0], b[0], 256), tm.eq(a[1], b[1], 256), tm.eq(a[2], b[2], 256), tm.eq(a[3], b[3], 0)]
+    for (n, va, w), (_, vb, _) in zip(a[4] if len(a) > 4 else (), b[4] if len(b) > 4 else ()):
+        cs.append(tm.eq(va, vb, w))
+    return tm.band_all(cs)
 
 
 def sec1_spec(B):
@@ -213,6 +219,11 @@ def main():
     tasks = build(chk, os.environ.get('VERIF_ONLY', ''))
     from .common import include_ring_dependency
     include_ring_dependency(chk, tasks, 'C01', 'field', ['field_sqrt'], 'compressed decoding and RecoverPoint take the square root of x^3 + 7 with Element.Sqrt; the decode obligations use its contract (root iff square, zero otherwise), the real SqrtRatio / Sqrt code is re-decided here')
+    only = os.environ.get('VERIF_ONLY', '')
+    if not only or 'encshort' in only:
+        from .common import include_dependency
+        include_dependency(chk, tasks, 'C05', 'encshort', 'each point has exactly one encoding whatever computation produced it and whatever the result object held before: '
+                           'the public encoders are run on the result of the fixed-base multiplications (coordinate level, toy curve) for an arbitrary prior receiver')
     chk.run_tasks(tasks)
     chk.discharge()
     chk.finish()
